@@ -101,6 +101,14 @@ class Check:
                      + self.cfg.get("extract", []), env=GOENV)
         if rc != 0:
             self.broken.append(("translator", "extract", out[-2000:]))
+        # generators that must be COMPILED against the current tree (they execute the source's own definitions)
+        for g in self.cfg.get("generate_with", []):
+            with Lock("gobuild"):
+                rc, out = sh(["go", "build", "-tags", "verif", "-o", os.path.join(BIN, g), "./cmd/" + g], cwd=HARNESS, env=GOENV)
+            if rc == 0:
+                rc, out = sh([os.path.join(BIN, g), "--repo", REPO, "--out", os.path.join(LEAN, "BandVerif", "Generated")], env=GOENV)
+            if rc != 0:
+                self.broken.append(("translator", g, out[-2000:]))
 
     # ---- 2. prove
     def lake(self, targets):
